@@ -327,6 +327,7 @@ impl Exec {
         r is Ok ==> stage_ok(r->Ok_0.1, final(w).s) && holds_no_pipe(r->Ok_0.1) && final(w).s.stages.len() == old(w).s.stages.len() + 1
             && r->Ok_0.1.detached == self.config.detached && r->Ok_0.1.child_state is Running && r->Ok_0.1.child_state->pid as int == old(w).s.stages.len()
             && final(w).s.stages.last().reaped == false && final(w).s.stages.last().detached == self.config.detached && final(w).s.stages.subrange(0, old(w).s.stages.len() as int) == old(w).s.stages,
+        final(w).s.full_reads == old(w).s.full_reads,
         // the Communicator holds the child's pipe ends: the library must not wait for the child while it is alive and unfinished
         r is Ok ==> final(w).s.parked =~= old(w).s.parked.union(r->Ok_0.0.ends@) && final(w).s.inheritable == old(w).s.inheritable, //[C12]
         // an Exec with neither output configured gets its stdout piped, so capture() has something to read
@@ -357,6 +358,8 @@ impl Exec {
     ensures
         // capture returns only after the child has been waited for
         r is Ok ==> final(w).s.stages.len() == old(w).s.stages.len() + 1 && final(w).s.stages.last().reaped, //[C12]
+        // what capture returns as Ok is the outcome of an exchange that ran to completion (nothing the child wrote is missing)
+        r is Ok ==> final(w).s.full_reads == old(w).s.full_reads + 1, //[C02,C12]
         // ... also when the exchange fails: the child started by capture is reaped unless detached (and nothing was waited for while the
         // library still held the child's pipe ends: precondition of the waits)
         final(w).s.stages.len() > old(w).s.stages.len() && !final(w).s.stages.last().detached ==> final(w).s.stages.last().reaped, //[C12]
@@ -479,7 +482,7 @@ impl Pipeline {
         // whoever calls popen() must not itself be sitting on a pipe end the commands may block on: the commands started so far
         // are waited for if a later one fails to start
         no_parked(old(w).s), //[C12,C14]
-    ensures final(w).s.parked == old(w).s.parked, match r {
+    ensures final(w).s.parked == old(w).s.parked, final(w).s.full_reads == old(w).s.full_reads, match r {
         Ok(v) => ({
 //@include builder_popen_ok.inc
         }),
@@ -489,11 +492,11 @@ impl Pipeline {
     }
 //@loop 0 optional
         invariant
-            w.s.parked == old(w).s.parked, no_parked(w.s),
+            w.s.parked == old(w).s.parked, no_parked(w.s), w.s.full_reads == old(w).s.full_reads,
 //@include builder_popen_loop0.inc
 //@loop 1 optional
         invariant
-            w.s.parked == old(w).s.parked, no_parked(w.s),
+            w.s.parked == old(w).s.parked, no_parked(w.s), w.s.full_reads == old(w).s.full_reads,
 //@include builder_popen_loop1.inc
 //@end
 
@@ -513,6 +516,7 @@ impl Pipeline {
         parked_within(old(w).s, *old(release_on_failure)), //[C12,C14]
     ensures
         r is Ok ==> final(w).s.parked == old(w).s.parked && *final(release_on_failure) == *old(release_on_failure),
+        final(w).s.full_reads == old(w).s.full_reads,
         // on failure the end was closed BEFORE the started commands were waited for (precondition of the wait), and nothing is parked
         r is Err ==> final(release_on_failure).is_none() && no_parked(final(w).s), //[C14]
         match r {
@@ -525,11 +529,11 @@ impl Pipeline {
     }
 //@loop 0
         invariant
-            w.s.parked == old(w).s.parked, *release_on_failure == *old(release_on_failure), parked_within(w.s, *release_on_failure),
+            w.s.parked == old(w).s.parked, *release_on_failure == *old(release_on_failure), parked_within(w.s, *release_on_failure), w.s.full_reads == old(w).s.full_reads,
 //@include builder_popen_loop0.inc
 //@loop 1
         invariant
-            w.s.parked == old(w).s.parked, *release_on_failure == *old(release_on_failure), parked_within(w.s, *release_on_failure),
+            w.s.parked == old(w).s.parked, *release_on_failure == *old(release_on_failure), parked_within(w.s, *release_on_failure), w.s.full_reads == old(w).s.full_reads,
 //@include builder_popen_loop1.inc
 //@end
 
@@ -585,6 +589,7 @@ impl Pipeline {
         old(w).s.stages.len() + self.cmds@.len() < 0xffff_ffff,
         no_parked(old(w).s), //[C12,C14]
     ensures
+        final(w).s.full_reads == old(w).s.full_reads,
         // the Communicator holds the pipeline's pipe ends (stdin of the first, stdout of the last, the shared stderr pipe)
         r is Ok ==> final(w).s.parked =~= r->Ok_0.0.ends@, //[C12]
         // if the pipeline could not be started nothing is left behind, and nothing was waited for while a pipe end was still held
@@ -623,6 +628,8 @@ impl Pipeline {
         final(w).s.stages.len() >= old(w).s.stages.len(),
         forall|j: int| old(w).s.stages.len() <= j < final(w).s.stages.len() ==> !(#[trigger] final(w).s.stages[j]).detached ==> final(w).s.stages[j].reaped, //[C12,C13,C14]
         r is Ok ==> final(w).s.stages.len() == old(w).s.stages.len() + self.cmds@.len() && final(w).s.stages.last().reaped, //[C13]
+        // what capture returns as Ok is the outcome of an exchange that ran to completion: no line of any stage's output is missing
+        r is Ok ==> final(w).s.full_reads == old(w).s.full_reads + 1, //[C02,C13]
 //@end
 }
 pub open spec fn b_le(a: int, b: int) -> bool { a <= b }
